@@ -80,7 +80,10 @@ _D = {
         "all ordered pairs of states n<=2 in all presentations, sampled n<=8, against state-vector overlaps.",
  "C06": "Deductive: CompilerBase.compile for both compilers with noise on/off by trace induction: switchability (noise off or NoNoise -> exactly "
         "the noiseless call), placement before/after for one-qubit and all four controlled combinations incl. the noise carried at call "
-        "time, replacement noise, op.noise restored; depolarizing weight lemma. Bounded: per-channel oracles, PSD/trace, backend agreement, "
+        "time, replacement noise, op.noise restored; depolarizing weight lemma; apply() of every noise class per representation (mixtures: "
+        "exactly [(p_i f_k, Pauli_k on a copy of tableau i)], sign flips iff the row anticommutes - bit-wise for symbolic tableaux; "
+        "density matrices: Kraus / unitary lists as operator tokens + exact one-qubit matrices), MixedStabilizer.reduce, "
+        "_apply_additional_noise index rule. Bounded: per-channel oracles, PSD/trace, backend agreement, "
         "zero strength / empty map / switched off.",
  "C07": "Deductive: every function of linalg.py and transformation.py, clifford.py z_measurement_gate (relational contract, sequence-loop "
         "invariants, sum lemma), reset_x/y/z, swap_gate, insert_qubit, add_qubit, create_n_ket0/ket1, remove_qubit (measure then discard: "
@@ -89,24 +92,32 @@ _D = {
         "(per-row rule, frame, object identity); Valid => Valid for all gates and the measurement update (sum lemmas by induction, abstract "
         "Aaronson-Gottesman step); L3 conjugation tables (exact). Bounded: all 11,520 two-qubit tableaux x operations, walks to n=200.",
  "C08": "Deductive: graph -> stabilizer constructions (X=I, Z=adjacency, signs 0), stabilizer_to_density dispatch, convert_representation "
-        "dispatch table over the 9 ordered pairs (right converter, right payload, right wrapper class). Bounded: all graphs n<=4/5 through "
+        "dispatch table over the 9 ordered pairs (right converter, right payload, right wrapper class); _graph_finder (argument frame, H / "
+        "P_dag bookkeeping), state_to_graph (_phase_correction on every path, gate order), _phase_correction, hadamard_transform, "
+        "row_reduction, _position_finder exactly for n<=3. Bounded: all graphs n<=4/5 through "
         "all conversions, state_to_graph gate lists applied by an independent simulator.",
  "C09": "Deductive: local_comp_graph (adj' = adj xor neighbour pairs, involution; matrix products by a sum-support lemma), "
         "Graph.local_complementation, _is_valid_clifford, _coeff_maker, _R_matrix incl. its argument frame for int and float inputs, "
-        "local_clifford_ops table (exact). Bounded: all ordered pairs n<=4 "
+        "local_clifford_ops table (exact), lc_check / converter_gate_list / state_converter_circuit gate-list assembly (reversed inverse "
+        "of the reduction list, symbolic length), row_reduction. Bounded: all ordered pairs n<=4 "
         "(n<=5 thorough) against a BFS orbit oracle, returned Cliffords and complementation sequences applied and compared.",
  "C10": "Deductive: the default setting is dispatched (static), the de-duplication region of solve() for an arbitrary equivalence relation "
-        "(sizes <=4/5): one representative per class, none lost, order kept. Bounded: every result entry over all connected graphs n<=4 x "
+        "(sizes <=4/5): one representative per class, none lost, order kept; get_relabel_map (the map is an isomorphism from g1 to g2), "
+        "the result-assembly region and the lc_method dispatch of solve(). Bounded: every result entry over all connected graphs n<=4 x "
         "lc methods x settings judged by state vector over all measurement outcomes and a BFS orbit oracle.",
  "C11": "Deductive: run_circuit (every gate name, reverse handling, general list by trace induction), inverse_circuit clause (a) trace "
-        "consistency in all seven blocks (lockstep loop rule), clifford_from_stabilizer dispatch. Clause (b) (result is |0..0>) is known "
+        "consistency in all seven blocks (lockstep loop rule), group preservation of every write to the working tableau, the first "
+        "Hadamard block's pivot choice and per-step contracts of the later blocks, exact run over all 1146 states n<=3, "
+        "clifford_from_stabilizer dispatch. Clause (b) (result is |0..0>) is known "
         "FALSE for some states n>=5 (known finding) and is bounded-only. Bounded: all states n<=3 x generating sets, sampled up to n=30.",
  "C12": "Deductive: add / insert_at / remove_op / replace_op / _add_reg_if_absent executed on symbolic graph fragments for every operation arity and "
         "register-type mix (edge multiset, node set, node_dict/edge_dict, register counts, id counter); wire lemmas: splice/unsplice keep "
         "every wire a single path in order, append/remove keep the graph acyclic. Bounded: exhaustive edit histories <=3 and long random "
         "histories recomputing the invariant from scratch.",
  "C13": "Deductive: frame obligations from the interpreter's write log for every metric evaluate, compile's op.noise restoration, "
-        "_noisy_gates/assign_noise (fresh ops, originals untouched) by induction over an abstract sequence, solver constructors. Bounded: "
+        "_noisy_gates/assign_noise (fresh ops, originals untouched) by induction over an abstract sequence, solver constructors; "
+        "remove_identity, unwrap_nodes, group_one_qubit_gates on symbolic graph fragments (per-wire application order unchanged; whole "
+        "function for small counts + induction-step tasks). Bounded: "
         "rewrites preserve the compiled state, frames around every call and call histories <=3.",
  "C14": "Deductive: every *_info usage statement for symbolic registers (token strings), wrapper definitions evaluated exactly with openQASM 2 "
         "semantics, to_json / from_json round trip per operation kind x register mix, to_openqasm emission loop by induction, JSON name "
@@ -114,7 +125,9 @@ _D = {
         "independent openQASM-2 reader, determinism across processes.",
  "C15": "Deductive: one step of direct()'s register-by-register walk on symbolic graph fragments for every pair of next operations (continues "
         "only if class, registers and types agree; follows the wire in both circuits), finite class table for the node test (exact), "
-        "structural shape (static, three-valued). Bounded: all pairs of circuits <=2 ops and order-sensitive families for all comparison "
+        "structural shape (static, three-valued); the walk as a loop invariant with havoc'd carried state, add_control_target_to_dag on "
+        "fragments with stale tags, remove_redundant_circuits / CircuitStorage / compare_circuits over an uninterpreted verdict, matcher "
+        "callbacks exactly (refuted classes = known findings). Bounded: all pairs of circuits <=2 ops and order-sensitive families for all comparison "
         "methods judged by compiled states on every outcome branch, compare-edit-compare histories, redundancy filters.",
  "C16": "Deductive: _perm2matrix (loop invariant), relabel proved literally as result[p(u),p(v)] = A[u,v] (sum-support lemma by induction), "
         "_equal_graphs, check_isomorphism, get_relabel_map identity branch. Bounded: all graphs n<=5 x all permutations, iso_finder option "
@@ -123,7 +136,9 @@ _D = {
         "all representation pairs (right function, copy converted, value 1-F). Spectral float code (Uhlmann branch, trace distance, "
         "sqrtm) is outside deduction: bounded against independent oracles incl. complex and mixed states.",
  "C18": "Deductive: constructors define every attribute evaluate reads (all 12 metric classes, default arguments), evaluate of the five counting "
-        "metrics as effect traces (value = penalty(definition), logging, frame), unitary label list (exact over 2^8 patterns). Bounded: "
+        "metrics as effect traces (value = penalty(definition), logging, frame), unitary label list (exact over 2^8 patterns); _max_depth "
+        "(one unfolding of the recursion, purity, query-edit-query histories), calculate_reg_depth, reg_gate_history, the three "
+        "emitter-depth metrics for 1-3 emitters. Bounded: "
         "every metric vs an independent definition on enumerated and random circuits.",
  "C19": "Deductive: update_hof over real-valued scores for hall-of-fame sizes <=3 (length, entries are copies, population untouched; the "
         "sortedness / best-not-worse clauses are REFUTED within the isclose tolerance - known finding), tournament_selection, "
